@@ -111,7 +111,9 @@ func (ch *Channel) Invoke(ctx context.Context, methodName string, req, resp inte
 	case <-respCh:
 	}
 	if err != nil {
-		return err
+		// reading the body fails with the context's error if the context
+		// ends meanwhile, and the select above may still pick respCh
+		return statusFromContextError(err)
 	}
 	return codec.Unmarshal(b, resp)
 }
